@@ -355,6 +355,7 @@ def run(rep, facts, tier):
     from rules import numberset as _ns
     _ns.rule_from_base_and_set(rep, fx, 'R14.11')
     rule_14_12(rep, fx)
+    rule_14_13(rep, fx)
     if 'security' in facts:
         default_types = set(strip_generics(b.impl_self or '') for b in fx.bodies if b.name == 'len_serialized' and b.impl_self)
         rule_14_6(rep, facts['security'], pre='security:', skip=default_types)
@@ -807,3 +808,140 @@ def rule_14_12(rep, fx):
                       'MessageBuilder::%s serialises an element of the submessage under %s while its flags are built from %s' % (b.name, term_str(c)[:60], [term_str(f)[:40] for f in fl][:2]),
                       b.where(bb) if bb is not None else b.where())
     rep.floor('R14.12', nb, 2, 'separately serialised submessage elements in MessageBuilder')
+
+
+def rule_14_13(rep, fx, pre=''):
+    """What the builder is asked to add is in the message, and what the message contains is parsed (mutation triage: deleted pushes in the MessageBuilder and in
+    Message::read_from_buffer, an inverted Invalidate flag and an inverted loop condition all survived)."""
+    from rdv.core import natural_loops, primary_edges
+    if not pre:
+        rep.rule('R14.13', 'builder appends, parser takes all: every Submessage a MessageBuilder method constructs is pushed onto self.submessages on every path from the construction to '
+                           'the return; ts_msg sets the Invalidate flag exactly for timestamp = None and announces 8 content bytes for Some, 0 for None; every dispose data_msg '
+                           'announces carries status info with disposed = true; Message::read_from_buffer leaves its parsing loop only when the buffer is used up and pushes every '
+                           'Some(submessage) it parsed before parsing the next')
+    n = 0
+    for b in fx.bodies:
+        if not b.key.startswith('rtps::message::MessageBuilder::') or b.kind not in ('fn', 'assoc_fn'):
+            continue
+        aggs = [(bb, si) for bb, si, st in b.statements() if st['s'] == 'assign' and st['rv']['r'] == 'agg' and strip_generics(st['rv'].get('adt', '')).endswith('rtps::submessage::Submessage')]
+        if not aggs:
+            continue
+        rep.analysed(b)
+        og = Origins(b, summaries=False)
+        P = Pos(b)
+        pushes = []
+        for bb, t in b.calls():
+            if callee_res(t).endswith('::push') and has_field(og.of_operand(t['args'][0], bb, 'term'), 'submessages'):
+                v = og.of_operand(t['args'][1], bb, 'term')
+                if term_has(v, lambda x: x[0] == 'agg' and strip_generics(str(x[1])).endswith('rtps::submessage::Submessage')) or \
+                        term_has(v, lambda x: x[0] == 'call' and x[1].endswith('create_submessage')):
+                    pushes.append((bb, 'term'))
+        for bb, si in aggs:
+            n += 1
+            ok = bool(pushes) and not any(P.can_reach((bb, si), (r, 'term'), avoid_pos=pushes) for r in b.return_blocks())
+            rep.check(ok, 'R14.13', '%sMessageBuilder::%s/appends#%d' % (pre, b.name, n), 'constructed => pushed onto self.submessages on every path',
+                      'MessageBuilder::%s builds a submessage that is not appended to the message on every path: the caller\'s INFO_DST / INFO_TS / DATA / GAP ... silently never goes '
+                      'on the wire' % b.name, b.where(bb, si))
+    # builders that go through Xxx::create_submessage(flags)
+    for b in fx.bodies:
+        if not b.key.startswith('rtps::message::MessageBuilder::') or b.kind not in ('fn', 'assoc_fn'):
+            continue
+        og = None
+        for bb, t in b.calls():
+            if callee_res(t).endswith('create_submessage'):
+                og = og or Origins(b, summaries=False)
+                P = Pos(b)
+                n += 1
+                # create_submessage answers Option<Submessage> (None: the body could not be serialised): the Some goes onto the list, by match or by map(|s| push(s))
+                pushes = [(pb, 'term') for pb, pt in b.calls() if callee_res(pt).endswith('::push') and has_field(og.of_operand(pt['args'][0], pb, 'term'), 'submessages') and
+                          term_has(og.of_operand(pt['args'][1], pb, 'term'), lambda x: x[0] == 'call' and x[1].endswith('create_submessage') and len(x) > 3 and x[3] == bb)]
+                some = [(s_, t_) for s_, t_, cond, lab in switch_edges(b, fx, og) if lab == 'Some' and cond[0] == 'discr' and cond[1][0] == 'call' and len(cond[1]) > 3 and cond[1][3] == bb]
+                ok = bool(pushes) and bool(some) and not any(P.can_reach((t_, 0), (r, 'term'), avoid_pos=pushes) for s_, t_ in some for r in b.return_blocks())
+                if not ok:
+                    for mb, mt in b.calls():
+                        if callee_res(mt).endswith('Option::<T>::map') and term_has(og.of_operand(mt['args'][0], mb, 'term'), lambda x: x[0] == 'call' and len(x) > 3 and x[3] == bb and x[1].endswith('create_submessage')):
+                            for c in fx.closures_of(b):
+                                if c.key not in str(og.of_operand(mt['args'][1], mb, 'term')):
+                                    continue
+                                ogc = Origins(c, summaries=False)
+                                cp = [(pb, 'term') for pb, pt in c.calls() if callee_res(pt).endswith('::push') and ogc.of_operand(pt['args'][1], pb, 'term') == ('param', 2) and
+                                      'submessages' in str(ogc.of_operand(pt['args'][0], pb, 'term'))]
+                                if cp and all(Pos(c).every_path_passes(None, (r, 'term'), via_pos=cp, from_entry=True) for r in c.return_blocks()) and \
+                                        not any(P.can_reach((bb, 'term'), (r, 'term'), avoid_pos=[(mb, 'term')]) for r in b.return_blocks()):
+                                    ok = True
+                rep.check(ok, 'R14.13', '%sMessageBuilder::%s/appends#%d' % (pre, b.name, n), 'create_submessage(..) => pushed onto self.submessages on every path',
+                          'MessageBuilder::%s creates a submessage that is not appended to the message on every path' % b.name, b.where(bb))
+    rep.floor('R14.13', n, 7, 'submessages constructed by MessageBuilder methods (%s)' % (pre or 'default'))
+    # ts_msg
+    ts = fx.find('rtps::message::MessageBuilder::ts_msg')
+    og = Origins(ts, summaries=False)
+    P = Pos(ts)
+    edges = list(switch_edges(ts, fx, og))
+    none_e = [(s_, t_) for s_, t_, cond, lab in edges if (cond[0] == 'call' and cond[1].endswith('is_none') and lab is True and term_has(cond, lambda x: x == ('param', 3))) or
+              (cond[0] == 'call' and cond[1].endswith('is_some') and lab is False and term_has(cond, lambda x: x == ('param', 3)))]
+    some_e = [(s_, t_) for s_, t_, cond, lab in edges if (cond[0] == 'call' and cond[1].endswith('is_none') and lab is False and term_has(cond, lambda x: x == ('param', 3))) or
+              (cond[0] == 'call' and cond[1].endswith('is_some') and lab is True and term_has(cond, lambda x: x == ('param', 3)))]
+    none_e += [(s_, t_) for s_, t_, cond, lab in primary_edges(ts, edges) if cond[0] == 'discr' and cond[1] == ('param', 3) and lab == 'None' and False]
+    inv = [(bb, 'term') for bb, t in ts.calls() if callee_res(t).rsplit('::', 1)[-1] in ('bitor_assign', 'insert', 'bitor') and
+           any(term_has(og.of_operand(a, bb, 'term'), lambda x: x[0] == 'agg' and str(x[1]).endswith('INFOTIMESTAMP_Flags::Invalidate')) for a in t['args'])]
+    hdr = [(bb, si) for bb, si, st in ts.statements() if st['s'] == 'assign' and st['rv']['r'] == 'agg' and strip_generics(st['rv'].get('adt', '')).endswith('SubmessageHeader')]
+    ok = bool(none_e) and bool(some_e) and len(inv) == 1 and bool(hdr)
+    if ok:
+        ok = P.every_path_passes(None, inv[0], via_edges=none_e, from_entry=True) and not any(P.can_reach((t_, 0), h, avoid_pos=inv) for s_, t_ in none_e for h in hdr) and \
+            not any(P.can_reach((t_, 0), inv[0]) for s_, t_ in some_e)
+    rep.check(ok, 'R14.13', '%sts_msg/invalidate-iff-none' % pre, 'Invalidate flag <=> timestamp is None',
+              'ts_msg does not set the Invalidate flag exactly when there is no timestamp: a receiver skips the timestamp that is there (source timestamps are lost) or reads one '
+              'that is not', ts.where())
+    lens = {}
+    for s_, t_, cond, lab in primary_edges(ts, edges):
+        if cond[0] == 'discr' and cond[1] == ('param', 3) and lab in ('Some', 'None'):
+            for bb in [t_]:
+                for st in ts.blocks[bb]['st']:
+                    if st['s'] == 'assign' and st['rv']['r'] == 'use' and st['rv']['x'].get('o') == 'const' and st['rv']['x']['k'].get('c') == 'int':
+                        lens[lab] = int(st['rv']['x']['k']['v'])
+    rep.check(lens == {'Some': 8, 'None': 0}, 'R14.13', '%sts_msg/content-length' % pre, 'content_length 8 with a timestamp, 0 without',
+              'ts_msg announces content lengths %s for (Some, None); the timestamp is 8 bytes and absent under Invalidate' % lens, ts.where())
+    # dispose status info
+    dm = fx.find('rtps::message::MessageBuilder::data_msg')
+    og = Origins(dm, summaries=False)
+    st_calls = [(bb, t) for bb, t in dm.calls() if callee_res(t).endswith('create_pid_status_info_parameter')]
+    okd = len(st_calls) >= 2 and all(og.of_operand(t['args'][0], bb, 'term') in (('const', 'int', 1), ('const', 'bool', True), ('const', 'bool', 'true')) for bb, t in st_calls)
+    rep.check(okd, 'R14.13', '%sdata_msg/dispose-status' % pre, '%d status-info parameters, all with disposed = true' % len(st_calls),
+              'data_msg announces a dispose with status info whose disposed flag is not set: the reader takes it for an unregistration (or an update)', dm.where())
+    # the parser takes all
+    rb = fx.find('rtps::message::Message::read_from_buffer')
+    rep.analysed(rb)
+    og = Origins(rb, summaries=False)
+    P = Pos(rb)
+    edges = list(switch_edges(rb, fx, og))
+    reads = [(bb, t) for bb, t in rb.calls() if callee_res(t).endswith('Submessage::read_from_buffer')]
+    pushes = [(bb, 'term') for bb, t in rb.calls() if callee_res(t).endswith('::push') and has_field(og.of_operand(t['args'][0], bb, 'term'), 'submessages')]
+    okp = len(reads) == 1 and bool(pushes)
+    why = 'shape'
+    if okp:
+        rbb = reads[0][0]
+        lp = [l for l in natural_loops(rb) if rbb in l[1]]
+        some = [(s_, t_) for s_, t_, cond, lab in edges if lab == 'Some' and cond[0] == 'discr' and term_has(cond, lambda x: x[0] == 'call' and len(x) > 3 and x[3] == rbb)]
+        if not lp or not some or any(P.can_reach((t_, 0), (rbb, 'term'), avoid_pos=pushes) for s_, t_ in some):
+            okp = False
+            why = 'a parsed submessage is not kept'
+        else:
+            blocks = lp[0][1]
+            for s_, t_, cond, lab in edges:
+                if s_ in blocks and t_ not in blocks and isinstance(lab, bool):
+                    neg, c = False, cond
+                    while c[0] == 'un' and c[1] == 'Not':
+                        neg, c = not neg, c[2]
+                    while c[0] == 'bin' and c[1] in ('Eq', 'Ne') and any(x[0] == 'const' for x in c[2:4]):
+                        k = [x for x in c[2:4] if x[0] == 'const'][0]
+                        other = [x for x in c[2:4] if x is not k][0]
+                        if (c[1] == 'Eq') != (str(k[2]) in ('1', 'true', 'True')):
+                            neg = not neg
+                        c = other
+                        while c[0] == 'un' and c[1] == 'Not':
+                            neg, c = not neg, c[2]
+                    if not (c[0] == 'call' and c[1].endswith('is_empty') and lab != neg):
+                        okp = False
+                        why = 'the loop is left while bytes remain'
+    rep.check(okp, 'R14.13', '%sMessage::read_from_buffer/takes-all' % pre, 'loop until the buffer is empty; every Some(submessage) pushed',
+              'Message::read_from_buffer does not parse and keep every submessage of the datagram (%s)' % why, rb.where())
